@@ -80,10 +80,21 @@ func (b *builder) packages(prefix, header string, per int) []*tv.Package {
 		}
 		p := &tv.Package{Name: fmt.Sprintf("%s%d", prefix, len(out)), Files: map[string]string{}}
 		var sb strings.Builder
-		sb.WriteString("package " + p.Name + "\n\n" + header + "\n")
-		for _, t := range b.types {
-			sb.WriteString(t + "\n")
+		needs := false
+		for _, f := range b.fns[i:j] {
+			if strings.Contains(f.src, "machine.") {
+				needs = true
+			}
 		}
+		prelude := "\n"
+		if needs {
+			prelude = header + "\n"
+		}
+		for _, t := range b.types {
+			prelude += t + "\n"
+		}
+		p.Prelude = prelude
+		sb.WriteString("package " + p.Name + "\n\n" + prelude)
 		for _, f := range b.fns[i:j] {
 			from := strings.Count(sb.String(), "\n") + 2
 			sb.WriteString("\n// " + f.id + "\n" + f.src + "\n")
@@ -134,7 +145,7 @@ func Subset(level int) []*tv.Package {
 	if level > 0 {
 		genCompositions(b)
 	}
-	return b.packages("sub", `import "github.com/goose-lang/goose/machine"`+"\n\nvar _ = machine.Linearize\n", 60)
+	return b.packages("sub", `import "github.com/goose-lang/goose/machine"`+"\n", 60)
 }
 
 func genExprs(b *builder, level int) {
@@ -427,6 +438,9 @@ func genCompositions(b *builder) {
 					}
 					if l1 == "ret" && (l2 == "ret" && l3 == "ret") {
 						continue // unreachable code after the inner if
+					}
+					if l1 == "ret" && (l2 == "ret") != (l3 == "ret") {
+						continue // a return in only one arm of an if/else that is followed by code: outside the subset (see Lookalikes)
 					}
 					b.add(name, src)
 				}
